@@ -1155,7 +1155,11 @@ def enum_paths(fn, start, targets, limit=20000, want_env=False, resolve_atoms=Fa
             if resolve_atoms:
                 e = resolve_env(e, env)
             for tgt in dict.fromkeys(succ[bb]):
-                walk(tgt, env, atoms + [_atoms_for(e, t, tgt)], seen)
+                at = _atoms_for(e, t, tgt)
+                # the same expression (same call instance / same local value) cannot test both ways on one path
+                if isinstance(at[1], bool) and any(e0 == at[0] and isinstance(p0, bool) and p0 != at[1] for e0, p0 in atoms):
+                    continue
+                walk(tgt, env, atoms + [at], seen)
             return
         if t["k"] in ("call", "tailcall") and t.get("dest") and not t["dest"][1]:
             l = t["dest"][0]
